@@ -531,7 +531,7 @@ def c04(run):
         # a group is {mandatory vtables by name, optional vtables by name, container}, and its
         # container {instance, context, temporary storage of each trait in that same order}
         if d.get("group") and isinstance(ref.get(d["id"]), list) and not any(v["key"] == "C04:group-fields" for v in viol):
-            order = sorted(x.lower() for x in d["mand"]) + sorted(x.lower() for x in d["opt"])
+            order = [x.lower() for x in sorted(d["mand"])] + [x.lower() for x in sorted(d["opt"])]   # by the identifier (byte order), not by the lower-cased field name
             want = {d["group"]: [f"vtbl_{x}" for x in order] + ["container"], d["group"] + "Container": ["instance", "context"] + [f"ret_tmp_{x}" for x in order]}
             groups_checked += 1
             for s_ in ref[d["id"]]:
